@@ -5,12 +5,29 @@ from props import _hist
 RULE = ("case = a batch of consecutive create -> install x(0-12, mixed kinds, repeated targets) -> drop cycles in one process; an online "
         "ledger on the interposed mmap/munmap calls requires (how many mappings an installation keeps is not prescribed; the histogram is reported): every library munmap releases one or more WHOLE live library mappings and apart from them only pages nobody has mapped (a range that cuts a mapping or takes somebody else's page along is a violation), the ledger is empty "
         "after every drop; canary pages next to the usual trampoline addresses keep their content; the executable-anonymous page set of "
-        "/proc/self/maps is compared with the initial one every 64 cycles. Histories also contain installations the library must refuse (nothing may stay mapped), a self-fake installation (accepted = one more mapping, refused = none), and one lifetime in sixteen runs on a short-lived thread with another thread queued for the guard at scope exit. Meanwhile a background thread maps (hint only), uses and unmaps ordinary pages right where the library looks for trampoline pages first: none of them may be replaced or unmapped under its feet. distinct = distinct classes of the first history of each batch")
+        "/proc/self/maps is compared with the initial one every 64 cycles. Histories also contain installations the library must refuse (nothing may stay mapped), a self-fake installation (accepted = one more mapping, refused = none), and one lifetime in sixteen runs on a short-lived thread with another thread queued for the guard at scope exit. The placement scenario of C11 (neighbourhood full except one page at the first / last = exactly +128 MiB / +-64 MiB offset) is also run with the release at scope exit judged. Meanwhile a background thread maps (hint only), uses and unmaps ordinary pages right where the library looks for trampoline pages first: none of them may be replaced or unmapped under its feet. distinct = distinct classes of the first history of each batch")
 ASSUME = ["Rust std never maps executable anonymous memory, so such mappings are the library's",
           "harness mappings use raw system calls and never enter the ledger"]
 
 
+def shaped_part(r, exe, thorough):
+    """Release at scope exit for trampolines at unusual places: the placement scenario of C11 (neighbourhood full
+    except one page: first, last = exactly +128 MiB, +/-64 MiB; very low targets) is run with the release judged.
+    Anything else that scenario reports is C11's business and is left to it (inconclusive here)."""
+    cases, sums, notes = core.run_sharded(exe, "c11", r.seed, "thorough" if thorough else "quick", 4, extra={"judge_release": 1}, timeout=3000)
+    out = []
+    for c in cases:
+        c = dict(c)
+        c["class"] = "shaped/" + c.get("class", "")
+        if c.get("verdict") == "violated" and not str(c.get("sig", "")).startswith("c12:"):
+            c["verdict"], c["sig"] = "inconclusive", "left-to-C11:" + str(c.get("sig", ""))[:60]
+        out.append(c)
+    r.add_cases(out, "native/shaped-neighbourhoods")
+    r.notes += notes
+
+
 def extra(r, exe, thorough):
+    shaped_part(r, exe, thorough)
     if not thorough:
         return
     import os, shutil, re
